@@ -169,3 +169,26 @@ Theorem C01_ipa_complete :
     i_check d (cs_of items) z (vs_of z items) pf chal hchal = Ok (true, rest, hrest).
 Proof. exact @ipa_complete_trimmed. Qed.
 Print Assumptions C01_ipa_complete.
+
+(* Ligero (univariate; column hash and Merkle tree as an ideal vector commitment): for every coefficient matrix whose rows
+   fit the row length, every point, every squeezed well-formedness vector and every list of queried positions, the
+   proof built by open passes every check of the verifier for the value <v, a>; and that value is p(z) for the matrix
+   the library builds from the coefficients of p (zero polynomial and zero padding included) *)
+From PC Require Import Schemes.Ligero Proofs.LigeroFacts.
+Theorem C01_ligero_complete :
+  forall (FO : FieldOps) (FL : FieldLaws FO) wf n_rows n_cols n_ext omega rows z r idx pf,
+    length rows = n_rows -> Forall (fun r => (length r <= n_cols)%nat) rows ->
+    l_open wf n_rows n_cols n_ext omega rows z r idx = Ok pf ->
+    l_check wf n_rows n_cols n_ext omega (map (encode omega n_ext) rows) z
+            (ip (lf_v pf) (fst (tensor_uni z n_cols n_rows))) pf r idx = Ok true.
+Proof. exact @ligero_complete. Qed.
+Print Assumptions C01_ligero_complete.
+
+Theorem C01_ligero_value :
+  forall (FO : FieldOps) (FL : FieldLaws FO) n_rows n_cols coeffs z,
+    (length coeffs <= n_rows * n_cols)%nat ->
+    let rows := lig_matrix n_rows n_cols coeffs in
+    let '(a, b) := tensor_uni z n_cols n_rows in
+    ip (rowcomb rows n_cols b) a = eval coeffs z.
+Proof. exact @ligero_value. Qed.
+Print Assumptions C01_ligero_value.
